@@ -386,6 +386,16 @@ def getKeysInBuckets (arr : Arrange) (H : Hasher) (vs : ValueStream) (depth limi
     (s : NMap RV) (buckets : List Nat) : List (Nat × RV) :=
   (arr ((iter π s).filter fun p => buckets.contains (bucketOf depth (keyDigest H vs p.1 p.2)))).take limit
 
+/-- compiled form: the bucket of an entry needs its KEY hash only (the literal transcription builds
+    the whole `KeyDigest`, i.e. also hashes the value, for every entry of every filter) -/
+def getKeysInBucketsFast (arr : Arrange) (H : Hasher) (_vs : ValueStream) (depth limit : Nat) (π : List Nat)
+    (s : NMap RV) (buckets : List Nat) : List (Nat × RV) :=
+  (arr ((iter π s).filter fun p => buckets.contains (H.key p.1 % 2 ^ depth))).take limit
+
+@[csimp] theorem getKeysInBuckets_eq_fast : @getKeysInBuckets = @getKeysInBucketsFast := by
+  funext arr H vs depth limit π s buckets
+  rfl
+
 /-- `ShardReplicaState::apply_remote_delta` on `replicated_keys` (the Lamport clock and the
     executor write-through of `SimulatedNode::apply_remote_deltas` are not part of the state
     the digests are computed from) -/
@@ -440,6 +450,20 @@ def responseKeysWith (ord : RespOrder) (H : Hasher) (vs : ValueStream) (depth li
     match ord with
     | .filterThenTake => ((iter π s).filter inReq).take limit
     | .takeThenFilter => ((iter π s).take limit).filter inReq
+
+def responseKeysWithFast (ord : RespOrder) (H : Hasher) (_vs : ValueStream) (depth limit : Nat) (π : List Nat)
+    (s : NMap RV) (requested : Option (List Nat)) : List (Nat × RV) :=
+  match requested with
+  | none => (iter π s).take limit
+  | some buckets =>
+    let inReq := fun (p : Nat × RV) => buckets.contains (H.key p.1 % 2 ^ depth)
+    match ord with
+    | .filterThenTake => ((iter π s).filter inReq).take limit
+    | .takeThenFilter => ((iter π s).take limit).filter inReq
+
+@[csimp] theorem responseKeysWith_eq_fast : @responseKeysWith = @responseKeysWithFast := by
+  funext ord H vs depth limit π s requested
+  cases requested <;> rfl
 
 def currentRespOrder : RespOrder := .filterThenTake
 
